@@ -44,8 +44,45 @@ def flat(x):
     return out
 
 
+def torch_dtype(name):
+    import torch
+    return {"f32": torch.float32, "f64": torch.float64, None: torch.float32}[name]
+
+
+LAYOUTS = ("contig", "perm", "strided", "offset")
+
+
+def relayout(t, mode, junk=None):
+    """A tensor with the values of `t` in another memory layout: `perm` = dense but stored with
+    the dimensions reversed, `strided` = every second cell of a longer buffer along the last
+    dimension (junk in between, storage offset 1), `offset` = the inside of a buffer that is two
+    longer along the first dimension (storage offset != 0)."""
+    import torch
+    if mode in (None, "contig") or t.dim() == 0:
+        return t.contiguous()
+    if junk is None:
+        junk = 77.0 if t.is_floating_point() else 1
+    shape = list(t.shape)
+    if mode == "perm":
+        rev = list(range(t.dim() - 1, -1, -1))
+        return t.permute(rev).contiguous().permute(rev)
+    if mode == "strided":
+        big = torch.full(shape[:-1] + [shape[-1] * 2 + 1], junk, dtype=t.dtype)
+        view = big[..., 1::2]
+        view.copy_(t)
+        return view
+    if mode == "offset":
+        big = torch.full([shape[0] + 2] + shape[1:], junk, dtype=t.dtype)
+        view = big[1:-1]
+        view.copy_(t)
+        return view
+    raise ValueError(mode)
+
+
 def from_fracs(nested, dtype=None):
     import torch
+    if isinstance(dtype, str):
+        dtype = torch_dtype(dtype)
 
     def rec(x):
         if isinstance(x, list):
@@ -115,13 +152,13 @@ def identity_log_softmax():
             del torch.Tensor.log_softmax
 
 
-def lsm_rows(rows, exact):
+def lsm_rows(rows, exact, dtype=None):
     """What the implementation's log_softmax makes of the LM rows: identity in the exact stream,
     torch's own float32 log_softmax otherwise. rows: list of list of 'n/d'. Returns fraction strings."""
     import torch
     if exact or not rows:
         return [list(r) for r in rows]
-    t = from_fracs(rows)
+    t = from_fracs(rows, dtype)
     return tensor_fracs(torch.nn.functional.log_softmax(t, -1))
 
 
@@ -129,8 +166,11 @@ def hist_key(seq):
     return ",".join(str(int(x)) for x in seq)
 
 
-def make_lm(V, tables, default, eos=None, shared=False):
-    """tables: per batch element a dict hist_key -> list of V 'n/d' (raw LM outputs); default: list
+def make_lm(V, tables, default, eos=None, shared=False, dtype=None, layout=None):
+    """`dtype`/`layout`: dtype and memory layout of the rows the model returns. The initial state
+    may carry `sel` (long tensor of K table indices): batch element `n` then answers from
+    `tables[sel[n % K]]` - a language model conditioned on a batched input.
+    tables: per batch element a dict hist_key -> list of V 'n/d' (raw LM outputs); default: list
     of V. The model threads a rolling state through `prev` and raises StateThreadingError when
     the state it is handed is not the state of the history it is asked about. Histories that
     already contain `eos` are not checked (the tokens after the first eos are unspecified)."""
@@ -184,12 +224,18 @@ def make_lm(V, tables, default, eos=None, shared=False):
                 if idx_ > 0:
                     state[n] = roll(exp_prev, col[-1])
                 at[n] = idx_
-                tab = tables[0] if shared else (tables[n] if n < len(tables) else {})
+                if "sel" in prev:
+                    sel = prev["sel"]
+                    ti = int(sel[n % sel.numel()])
+                    tab = tables[ti] if ti < len(tables) else {}
+                else:
+                    tab = tables[0] if shared else (tables[n] if n < len(tables) else {})
                 row = tab.get(hist_key(col), default)
                 out.append([float(Fraction(x)) for x in row])
             nxt = dict(prev)
             nxt["state"] = state
             nxt["at"] = at
-            return torch.tensor(out, dtype=torch.float32).view(N, V), nxt
+            rows = torch.tensor(out, dtype=torch_dtype(dtype)).view(N, V)
+            return relayout(rows, layout), nxt
 
     return TableLM()
